@@ -11,6 +11,8 @@
 //!   o action <d|-> <fail|-> <id>:<prio>:<prog>,...|-     (parents = current head)
 //!   o probe <id> <max_cut>                 should_sync_on_hello on that address
 //!   o sess                                 facts visible to a fresh Session (ephemeral dump action)
+//!   o fault <commit|append> <k>            the k-th next Write::commit / Write::append fails with IoError (one shot)
+//!   o newgraph <fail|-> <id>:<prio>:<prog>,...   ClientState::new_graph with an init action publishing these
 //!   end
 //! stdout: `case <name>` then one line per op:
 //!   <result>|h=..|f=..|hh=..|s=..|r=..|g=..|st=..
@@ -29,10 +31,79 @@ use aranya_runtime::{
     Prior, Priority, Query, RuntimeBuffers, Segment, Sink, Storage, StorageError, StorageProvider,
     policy::ActionPlacement,
     storage::{
-        MemSpill,
-        linear::{LinearStorageProvider, libc::FileManager, testing::MemStorageProvider},
+        HeadSet, HeadSetOffset, MemSpill,
+        linear::{self, LinearStorageProvider, libc::FileManager},
     },
 };
+
+/// Switchable I/O faults: the k-th next `Write::commit` / `Write::append` fails (one shot).
+#[derive(Clone, Default)]
+struct Faults(Rc<RefCell<(u64, u64)>>);
+impl Faults {
+    fn hit(&self, commit: bool) -> bool {
+        let mut g = self.0.borrow_mut();
+        let c = if commit { &mut g.0 } else { &mut g.1 };
+        if *c == 0 {
+            return false;
+        }
+        *c -= 1;
+        *c == 0
+    }
+}
+struct FManager<M> {
+    inner: M,
+    f: Faults,
+}
+struct FWriter<W> {
+    inner: W,
+    f: Faults,
+}
+impl<M: linear::IoManager> linear::IoManager for FManager<M> {
+    type Writer = FWriter<M::Writer>;
+    fn create(&mut self, id: GraphId) -> Result<Self::Writer, StorageError> {
+        Ok(FWriter { inner: self.inner.create(id)?, f: self.f.clone() })
+    }
+    fn open(&mut self, id: GraphId) -> Result<Option<Self::Writer>, StorageError> {
+        Ok(self.inner.open(id)?.map(|w| FWriter { inner: w, f: self.f.clone() }))
+    }
+    fn remove(&mut self, id: GraphId) -> Result<(), StorageError> {
+        self.inner.remove(id)
+    }
+    fn list(&mut self) -> Result<impl Iterator<Item = Result<GraphId, StorageError>>, StorageError> {
+        self.inner.list()
+    }
+}
+impl<W: linear::Write> linear::Write for FWriter<W> {
+    type ReadOnly = W::ReadOnly;
+    fn readonly(&self) -> Self::ReadOnly {
+        self.inner.readonly()
+    }
+    fn heads(&self) -> Result<HeadSet, StorageError> {
+        self.inner.heads()
+    }
+    fn heads_offset(&self) -> Result<HeadSetOffset, StorageError> {
+        self.inner.heads_offset()
+    }
+    fn fact_cache(&self) -> Result<linear::FactCacheOffset, StorageError> {
+        self.inner.fact_cache()
+    }
+    fn append<F, T>(&mut self, builder: F) -> Result<T, StorageError>
+    where
+        F: FnOnce(u64) -> T,
+        T: serde::Serialize,
+    {
+        if self.f.hit(false) {
+            return Err(StorageError::IoError);
+        }
+        self.inner.append(builder)
+    }
+    fn commit(&mut self, heads: &HeadSet, fact_cache: linear::FactCacheOffset) -> Result<(), StorageError> {
+        if self.f.hit(true) {
+            return Err(StorageError::IoError);
+        }
+        self.inner.commit(heads, fact_cache)
+    }
+}
 
 type Eff = Vec<u64>;
 type Log = Rc<RefCell<Vec<String>>>;
@@ -427,7 +498,7 @@ fn fmt_facts(f: &[(u64, Vec<u64>)]) -> String {
         .join(";")
 }
 
-fn run_case<SP: StorageProvider>(provider: SP, gid_n: u64, table: &Table, ops: &[Vec<String>], out: &mut impl io::Write) {
+fn run_case<SP: StorageProvider>(provider: SP, faults: Faults, gid_n: u64, table: &Table, ops: &[Vec<String>], out: &mut impl io::Write) {
     let log: Log = Rc::new(RefCell::new(Vec::new()));
     let mut client = ClientState::new(AStore { pol: APolicy { log: log.clone() } }, provider);
     let gid = GraphId::transmute(cmd_id(gid_n));
@@ -495,6 +566,36 @@ fn run_case<SP: StorageProvider>(provider: SP, gid_n: u64, table: &Table, ops: &
                     match client.should_sync_on_hello(gid, a, &mut buffers.traversal.primary) {
                         Ok(b) => format!("ok:{b}"),
                         Err(e) => format!("err:{}", cerr(&e)),
+                    }
+                }
+                "fault" => {
+                    let k: u64 = op[2].parse().unwrap();
+                    let mut g = faults.0.borrow_mut();
+                    if op[1] == "commit" { g.0 = k } else { g.1 = k }
+                    "ok".into()
+                }
+                "newgraph" => {
+                    let fail_after = if op[1] == "-" { None } else { Some(op[1].parse().unwrap()) };
+                    let cmds: Vec<(u64, Priority, String)> = if op[2] == "-" {
+                        vec![]
+                    } else {
+                        op[2].split(',')
+                            .map(|c| {
+                                let f: Vec<&str> = c.splitn(3, ':').collect();
+                                (f[0].parse().unwrap(), parse_prio(f[1]), prog_of(f.get(2).copied().unwrap_or("-")))
+                            })
+                            .collect()
+                    };
+                    let ids: Vec<u64> = cmds.iter().map(|c| c.0).collect();
+                    let r = client.new_graph(b"", AAction { dump: false, cmds, fail_after }, &mut sink);
+                    // which of the published ids name a graph now?
+                    let ex: Vec<String> = ids
+                        .iter()
+                        .map(|i| format!("{}:{}", i, client.provider().get_storage(GraphId::transmute(cmd_id(*i))).is_ok() as u8))
+                        .collect();
+                    match r {
+                        Ok(g) => format!("ok:{};{}", id_num(CmdId::transmute(g)), ex.join("+")),
+                        Err(e) => format!("err:{};{}", cerr(&e), ex.join("+")),
                     }
                 }
                 "sess" => match client.session(gid) {
@@ -585,10 +686,12 @@ fn main() {
                     let _ = std::fs::remove_dir_all(&dir);
                     std::fs::create_dir_all(&dir).unwrap();
                     let fm = FileManager::new(std::path::Path::new(&dir)).expect("file manager");
-                    run_case(LinearStorageProvider::new(fm), gid, &tb, &ops, &mut out);
+                    let f = Faults::default();
+                    run_case(LinearStorageProvider::new(FManager { inner: fm, f: f.clone() }), f, gid, &tb, &ops, &mut out);
                     let _ = std::fs::remove_dir_all(&dir);
                 } else {
-                    run_case(MemStorageProvider::new(aranya_runtime::storage::linear::testing::Manager::new()), gid, &tb, &ops, &mut out);
+                    let f = Faults::default();
+                    run_case(LinearStorageProvider::new(FManager { inner: linear::testing::Manager::new(), f: f.clone() }), f, gid, &tb, &ops, &mut out);
                 }
                 out.flush().unwrap();
             }
